@@ -131,7 +131,7 @@ def err_class(exc):
     return "other"
 
 
-TUNING_KEYS = ("ACK_TIMEOUT", "ACK_RANDOM_FACTOR", "MAX_RETRANSMIT", "EMPTY_ACK_DELAY", "MAX_LATENCY", "OBSERVATION_RESET_TIME", "EXCHANGE_LIFETIME")
+TUNING_KEYS = ("ACK_TIMEOUT", "ACK_RANDOM_FACTOR", "MAX_RETRANSMIT", "EMPTY_ACK_DELAY", "MAX_LATENCY", "OBSERVATION_RESET_TIME", "EXCHANGE_LIFETIME", "MAX_TRANSMIT_WAIT")
 
 
 def build_msg(step, reqs, free_mid):
